@@ -622,7 +622,14 @@ def run_midpoint(ctx, rng, idx):
                     'from the midpoint)' % (tag, tri, i, dist[i], lab[i],
                                             DK[i].min(), k_ulp))
         a, b = out[False], out[True]
-        if a[0] != b[0] or not np.array_equal(a[2], b[2]):
+        # axis-aligned data: every distance is exact, so is the comparison;
+        # along a general direction a pruned frame may be an ulp closer to
+        # the new center after rounding (a tie either way)
+        exact_ = bool(np.count_nonzero(u) == 1)
+        same_d = np.array_equal(a[2], b[2]) if exact_ else (
+            a[2].shape == b[2].shape and
+            np.abs(a[2] - b[2]).max() <= 1e-12 * D)
+        if a[0] != b[0] or not same_d:
             ctx.violation('kcenters.midpoint.shortcut-differs[%s]' % tag,
                           'centers %s vs %s, max |d - d_plain| = %.3g (frame '
                           '%d ulps from the midpoint)' % (
